@@ -49,7 +49,7 @@ out += ("\n%d are caught with a concrete failing input (or a harness crash whose
         "skeleton or a theorem instance no longer checks (`no-failing-input-found`: %s), %d are missed by the quick tier%s. "
         "The tie-only ones need inputs or interleavings the generators do not produce: a tainted entity nested inside the items of a "
         "dependent fetch with `ValidateRequiredExternalFields` (C07-m2), a deferred group that fails hard in its fetch phase while a "
-        "sibling group flushes (C10-m1), a three-level defer nesting with an 'uncle' group and one completion order (C10-m2).\n"
+        "sibling group flushes (C10-m1).\n"
         % (n_in, n_tie, ', '.join(tie_only) or 'none', n_miss, (' (' + ', '.join(missed) + ')') if missed else ''))
 design = open(V + '/DESIGN.md').read()
 i = design.find('\n## 9. As built')
